@@ -230,24 +230,32 @@ __inst_to_epoch(echs_instant_t i)
 		306U, 337U, 0U, 31U, 61U, 92U,
 		122U, 153U, 184U, 214U, 245U, 275U
 	};
-	/* years run from Mar to Feb, Jan and Feb belong to the previous one */
-	unsigned int by = i.y - DAISY_BASE_YEAR - (i.m < 3U);
+	/* years run from Mar to Feb, Jan and Feb belong to the previous one,
+	 * the ones before the base year count backwards */
+	const int by = (int)i.y - (int)DAISY_BASE_YEAR - (i.m < 3U);
 	/* no bullshit years in our lifetime */
-	unsigned int j0 = by * 365U + by / 4U;
+	const long int j0 = by * 365L + (by >= 0 ? by / 4 : -((3 - by) / 4));
 	/* yday by lookup */
 	unsigned int yd = (LIKELY(i.m <= 12U))
 		? __mon_yday[i.m] + i.d
 		: 0U;
 
-	return ((((j0 + yd - DAISY_UNIX_BASE) * 24U +
-		  (LIKELY(i.H <= 24U) ? i.H : 24U)) * 60U + i.M) * 60U) + i.S;
+	return ((((j0 + (long int)yd - (long int)DAISY_UNIX_BASE) * 24L +
+		  (LIKELY(i.H <= 24U) ? i.H : 24U)) * 60L + i.M) * 60L) + i.S;
 }
 
 static echs_instant_t
 __epoch_to_inst(time_t t)
 {
-	unsigned int d = t / 86400U + DAISY_UNIX_BASE;
-	unsigned int s = t % 86400U;
+/* times before 1970 are negative, and days before the base year are counted
+ * from 48 years (12 leap cycles) earlier, that's 1900-03-01 */
+#define DAISY_BACK_DAYS	(12U * 1461U)
+#define DAISY_BACK_YEARS	(48U)
+	const long int dd = t >= 0 || !(t % 86400L)
+		? t / 86400L : t / 86400L - 1L;
+	unsigned int d =
+		(unsigned int)(dd + DAISY_UNIX_BASE + DAISY_BACK_DAYS);
+	unsigned int s = (unsigned int)(t - dd * 86400L);
 	echs_instant_t ti;
 
 	/* now here's the deal:
@@ -292,7 +300,8 @@ __epoch_to_inst(time_t t)
 				dom = doy - (mon++ * 32U - 19U + cake);
 			}
 
-			ti.y = by + DAISY_BASE_YEAR + (mon > 10U);
+			ti.y = by + DAISY_BASE_YEAR - DAISY_BACK_YEARS +
+				(mon > 10U);
 			ti.m = rm[mon];
 			ti.d = dom;
 #undef GET_REM
